@@ -4,7 +4,7 @@
    that restart() recovers EVERY field the step function reads, from the last two snapshots. *)
 From Coq Require Import Reals List Lra Lia.
 From MV Require Import Ops RInst Vec Cplx Mat Restart RestartP Stopping StoppingP.
-From MV Require Traj TrajP.
+From MV Require Traj TrajP MD MDP.
 Import ListNotations.
 Open Scope R_scope.
 
@@ -47,3 +47,11 @@ Print Assumptions C13_full_run_splits.
    dt inferred as t_k - t_{k-1} equals dt only up to rounding. *)
 Example C13_witness : Forall (fun mi : R => mi <> 0) [1; 2000].
 Proof. repeat constructor; lra. Qed.
+
+(* the assembled MD loop (Model/MD.md_run, tied to whole real AdiabaticMD runs by Run/RMD.chkM): N1 + N2 passes are N1 passes
+   followed by N2 passes from the state reached - position, velocity and clock are all a pass reads, so a run resumed from
+   them at ANY interruption point reproduces the uninterrupted one *)
+Theorem C13_md_run_splits : forall (F : list R -> list R) m dt N1 N2 s,
+  MD.md_run ROps F m dt (N1 + N2) s = MD.md_run ROps F m dt N2 (MD.md_run ROps F m dt N1 s).
+Proof. intros. apply MDP.md_run_app. Qed.
+Print Assumptions C13_md_run_splits.
